@@ -56,6 +56,19 @@ Section C06.
       constraint_grammar fo c = false /\ build_accepts fo c (VStr (b "x")) = false /\ conforms fo c (VStr (b "x")) = true.
   Proof. exact (let_constraint_mixed_range_refuted fo). Qed.
 
+  (* since fix 761a6c7 an exemplar is also checked against the VALUE when the binding is made: for any data value, however it was
+     computed, the run-time check alone is the shape test of the specification ... *)
+  Theorem runtime_check_of_an_exemplar_is_same_shape : forall ex v,
+      literal_value fo ex = true -> data_value fo v = true -> runtime_ok fo (VExemplar ex) v = same_shape fo true ex v.
+  Proof. exact (runtime_exemplar_exact fo). Qed.
+
+  (* ... so `let x :: ex = e` can only bind x to a conforming value, whatever expression e is and whatever evaluates it *)
+  Theorem exemplar_binding_binds_only_conforming_values : forall (ev : renv fo -> expr -> res (rval fo)) x ex e re re' v,
+      literal_value fo ex = true -> data_value fo v = true -> ev re e = Ok (rv_of_value fo v) ->
+      run_let_gen fo ev x (Some (CPlain (lit_expr fo ex))) e re = Ok re' ->
+      same_shape fo true ex v = true /\ re' = (x, rv_of_value fo v) :: re.
+  Proof. exact (let_exemplar_binds_same_shape fo float_roundtrip). Qed.
+
   (* the constraint's name must be a legal new binding *)
   Theorem name_clash_refuted :
       build_accepts_named fo (b "x") (VExemplar (VInt 0)) (VInt 1) = false /\ build_accepts fo (VExemplar (VInt 0)) (VInt 1) = true.
